@@ -18,6 +18,20 @@ pub fn inline_caches_on() -> bool {
     INLINE_CACHES_ON.with(Cell::get)
 }
 
+thread_local! {
+    static PROTOTYPE_ENTRIES_ON: Cell<bool> = const { Cell::new(true) };
+}
+
+/// Stop (or resume) recording inline-cache entries for properties found on the prototype; entries for
+/// own properties are not affected.
+pub fn set_prototype_entries(on: bool) {
+    PROTOTYPE_ENTRIES_ON.with(|c| c.set(on));
+}
+
+pub fn prototype_entries_on() -> bool {
+    PROTOTYPE_ENTRIES_ON.with(Cell::get)
+}
+
 /// Start/stop recording one line per `InlineCache::get` / `InlineCache::set` call.
 pub fn record_ic_events(on: bool) {
     IC_RECORD.with(|c| c.set(on));
